@@ -94,12 +94,16 @@ def runWdr {S Amp : Type} (parse : String → Option S) (shw : S → String)
     let obs := match rebin with
       | none => iterate cap w
       | some (k, b2, h2) => iterateRebin cap k b2 h2 w
-    " ".intercalate (obs.map fun o =>
+    -- the number of frames left in the public `frames` slice after every chunk
+    let left := (match rebin with
+      | none => trail cap w
+      | some (k, b2, h2) => trailRebin cap k b2 h2 w).map fun (s : Windower (List S)) => s.frames.length
+    " ".intercalate ((List.zip obs (left.map some ++ List.replicate obs.length none)).map fun (o, l) =>
       match o.2 with
       | none => s!"{showHint o.1} N"
       | some chunk =>
         let out := windowed floatArith kind toAmp mulAmp chunk
-        s!"{showHint o.1} C{",".intercalate (out.flatten.map shw)}")
+        s!"{showHint o.1} C{",".intercalate (out.flatten.map shw)} R{l.getD 0}")
 
 /-- `Sample::mul_amp` for i16 (dasp_sample lib.rs:236-239 with conv.rs `i16::to_f32`, `f32::to_i16`) -/
 def mulAmpI16 (s : Int16) (a : Float32) : Int16 :=
